@@ -282,10 +282,14 @@ Definition evict_addr (c : cache) (now : N) : cache * list bytes :=
 
 (* ---- lookups ----------------------------------------------------------------------------------- *)
 
-Definition srv_host (e : entry) : bytes := match r_data (e_rr e) with RSrv _ _ _ h => h | _ => [] end.
-Definition srv_port (e : entry) : N := match r_data (e_rr e) with RSrv _ _ p _ => p | _ => 0 end.
-Definition addr_octets (e : entry) : bytes := match r_data (e_rr e) with RAddr o => o | _ => [] end.
-Definition txt_text (e : entry) : bytes := match r_data (e_rr e) with RTxt t => t | _ => [] end.
+Definition rr_host (r : rr) : bytes := match r_data r with RSrv _ _ _ h => h | _ => [] end.
+Definition rr_port (r : rr) : N := match r_data r with RSrv _ _ p _ => p | _ => 0 end.
+Definition rr_octets (r : rr) : bytes := match r_data r with RAddr o => o | _ => [] end.
+Definition rr_text (r : rr) : bytes := match r_data r with RTxt t => t | _ => [] end.
+Definition srv_host (e : entry) : bytes := rr_host (e_rr e).
+Definition srv_port (e : entry) : N := rr_port (e_rr e).
+Definition addr_octets (e : entry) : bytes := rr_octets (e_rr e).
+Definition txt_text (e : entry) : bytes := rr_text (e_rr e).
 
 Definition get_addr (c : cache) (host : bytes) : option bucket := bm_get (lower host) (c_addr c).
 
